@@ -20,7 +20,7 @@ import (
 )
 
 type tspace struct {
-	z                      uint32
+	z                     uint32
 	n, lox, hix, loy, hiy float64
 }
 
@@ -580,6 +580,7 @@ func classify(test string, c Case, inf info) {
 	stats.Class("kind:" + c.Class)
 	stats.Class(zoomBucket(c.Z))
 	if c.Kind == "cover" {
+		stats.Class("layout:" + c.Layout)
 		if inf.inDomain {
 			stats.Class("domain:in quantifier")
 		} else {
@@ -633,20 +634,25 @@ func classify(test string, c Case, inf info) {
 }
 
 const (
-	assumeEps     = "tolerance: a tile is required only if the geometry meets it shrunk by 1e-6 tile on all four sides, allowed if the geometry meets it grown by 1e-6 tile; contacts in between are optional (DESIGN 3.2)"
-	assumeProj    = "the mercator image of a segment is the straight tile-space segment between the projected vertices (harness's own asinh/tan projection); vertices with lon in (-179.82,179.82), |lat| < 84.97"
-	assumeLines   = "line strings with total tile-space length <= 1e-6 tile count as zero-length (outside the quantifier): nothing is required of their cover except no extra tile"
-	assumePolys   = "polygons are simple in tile space (star-shaped, comb, lattice star, rectangle; holes strictly inside and disjoint) with closed rings; anything else (checked by the harness's own simplicity test) only has to return without panic and without tiles outside its bound"
-	assumeBounds  = "orb.Bound inputs have Min <= Max; cover of a bound = every tile overlapping the rectangle"
-	assumeMerge   = "merge inputs are sets of distinct tiles of one zoom with value true; target zoom <= that zoom; MergeUpPartial is only checked for count = 4"
-	assumeMembers = "tiles of a maptile.Set are its keys with value true"
+	assumeEps      = "tolerance: a tile is required only if the geometry meets it shrunk by 1e-6 tile on all four sides, allowed if the geometry meets it grown by 1e-6 tile; contacts in between are optional (DESIGN 3.2)"
+	assumeProj     = "the mercator image of a segment is the straight tile-space segment between the projected vertices (harness's own asinh/tan projection); vertices with lon in (-179.82,179.82), |lat| < 84.97"
+	assumeLines    = "line strings with total tile-space length <= 1e-6 tile count as zero-length (outside the quantifier): nothing is required of their cover except no extra tile"
+	assumePolys    = "polygons are simple in tile space (star-shaped, comb, lattice star, rectangle; holes strictly inside and disjoint) with closed rings; anything else (checked by the harness's own simplicity test) only has to return without panic and without tiles outside its bound"
+	assumeBounds   = "orb.Bound inputs have Min <= Max; cover of a bound = every tile overlapping the rectangle"
+	assumeMerge    = "merge inputs are sets of distinct tiles of one zoom with value true; target zoom <= that zoom; MergeUpPartial is only checked for count = 4"
+	assumeReadOnly = "tile covers are read-only on their geometry argument: the argument is laid out as windows of one buffer / with spare capacity and sentinels, and its whole backing arrays must be bit-identical after the calls; unclosed ring spellings (outside the quantifier, may be refused) are included for this and for totality"
+	assumeAlias    = "results of MergeUp/MergeUpPartial must not change when another set is merged afterwards; the result may be the argument itself (documented for target = input zoom)"
+	assumeMembers  = "tiles of a maptile.Set are its keys with value true"
 )
 
 func assumptions() {
-	for _, a := range []string{assumeEps, assumeProj, assumeLines, assumePolys, assumeBounds, assumeMerge, assumeMembers} {
+	for _, a := range []string{assumeEps, assumeProj, assumeLines, assumePolys, assumeBounds, assumeMerge, assumeMembers, assumeReadOnly, assumeAlias} {
 		stats.Assume(a)
 	}
 }
+
+// 40 % shared buffer, 40 % spare capacity, 20 % plain
+var layouts = []string{"shared", "shared", "spare", "spare", "plain"}
 
 func TestPropCover(t *testing.T) {
 	assumptions()
@@ -654,7 +660,11 @@ func TestPropCover(t *testing.T) {
 		z := uint32(rapid.IntRange(0, 22).Draw(rt, "z"))
 		s := newTS(z)
 		g, class := genGeom(rt, s, 0)
-		c := Case{Kind: "cover", Class: class, Z: z, Target: genTarget(rt, z), G: gen.G{V: g}}
+		if hasRing(g) && rapid.IntRange(0, 7).Draw(rt, "unclosed") == 0 {
+			g, class = unclose(g), class+"+unclosed"
+		}
+		layout := layouts[rapid.IntRange(0, 4).Draw(rt, "layout")]
+		c := Case{Kind: "cover", Class: class, Z: z, Target: genTarget(rt, z), G: gen.G{V: g}, Layout: layout}
 		var inf info
 		stats.Try(rt, "TestPropCover", c, func() error {
 			var err error
